@@ -1037,6 +1037,134 @@ let cuts_case (f : fmt) (input : string) (obs0 : string) : verdict =
   | _ -> failwith "cuts: bad input"
 let cuts_case f input obs = try cuts_case f input obs with Unknown_float -> { model = fst (split_flags obs); oracle = [] }
 
+(* ---------- gotype: types and values (same text format as harness/gotypes.go) ---------- *)
+let rec parse_gtype (ts : string list) : gtype * string list =
+  match ts with
+  | "b" :: r -> (TBool, r)
+  | "s" :: r -> (TString, r)
+  | "any" :: r -> (TIface, r)
+  | "X" :: r -> (TUnsup, r)
+  | "P" :: r -> let t, r = parse_gtype r in (TPtr t, r)
+  | "L" :: r -> let t, r = parse_gtype r in (TSlice t, r)
+  | "A" :: n :: r -> let t, r = parse_gtype r in (TArray (z_of_string n, t), r)
+  | "M" :: r -> let t, r = parse_gtype r in (TMap t, r)
+  | "MK" :: r -> let t, r = parse_gtype r in (TMapK t, r)
+  | "N" :: r -> let t, r = parse_gtype r in (TNamed t, r)
+  | "S" :: n :: r ->
+      let rec fields k r acc =
+        if k = 0 then (List.rev acc, r)
+        else match r with
+          | name :: tag :: r' ->
+              let t, r'' = parse_gtype r' in
+              fields (k - 1) r'' (((bytes_of_hex name, bytes_of_hex tag), t) :: acc)
+          | _ -> failwith "gtype: struct field" in
+      let fs, r = fields (int_of_string n) r [] in
+      (TStruct fs, r)
+  | k :: r when List.mem_assoc k nkinds -> (TNum (List.assoc k nkinds), r)
+  | t :: _ -> failwith ("gtype: bad token " ^ t)
+  | [] -> failwith "gtype: empty"
+
+let rec parse_gvalue (t : gtype) (ts : string list) : gvalue * string list =
+  let list_of u n r =
+    let rec go k r acc = if k = 0 then (List.rev acc, r) else let v, r' = parse_gvalue u r in go (k - 1) r' (v :: acc) in
+    go (int_of_string n) r [] in
+  match (match t with TNamed u -> u | _ -> t), ts with
+  | TBool, "t" :: r -> (GBool true, r)
+  | TBool, "f" :: r -> (GBool false, r)
+  | TString, tok :: r -> (GStr (bytes_of_hex (after tok 2)), r)
+  | TNum _, tok :: r -> (GNum (z_of_string tok), r)
+  | _, "nil" :: r -> (GNil, r)
+  | TIface, "I" :: r -> let dt, r = parse_gtype r in let v, r = parse_gvalue dt r in (GIface (dt, v), r)
+  | TPtr u, "&" :: r -> let v, r = parse_gvalue u r in (GPtr v, r)
+  | (TSlice u | TArray (_, u)), "[" :: n :: r -> let l, r = list_of u n r in (GList l, r)
+  | (TMap u | TMapK u), "{" :: n :: r ->
+      let rec go k r acc =
+        if k = 0 then (List.rev acc, r)
+        else match r with
+          | key :: r' -> let v, r'' = parse_gvalue u r' in go (k - 1) r'' ((bytes_of_hex key, v) :: acc)
+          | [] -> failwith "gvalue: map" in
+      let l, r = go (int_of_string n) r [] in
+      (GMap l, r)
+  | TStruct fs, "(" :: _ :: r ->
+      let rec go fs r acc = match fs with
+        | [] -> (List.rev acc, r)
+        | (_, ft) :: fr -> let v, r' = parse_gvalue ft r in go fr r' (v :: acc) in
+      let l, r = go fs r [] in
+      (GStruct l, r)
+  | _, tok :: _ -> failwith ("gvalue: bad token " ^ tok)
+  | _, [] -> failwith "gvalue: empty"
+
+let typed_value (tseg : string) (vseg : string) : gtype * gvalue =
+  let t, _ = parse_gtype (words tseg) in
+  let v, _ = parse_gvalue t (words vseg) in
+  (t, v)
+
+(* events as a multiset of tokens (comparison modulo map iteration order) *)
+let sorted_toks (evs : event list) : string list = List.sort compare (List.map tok_of_event evs)
+
+let obs_events (obs : string) : (event list * string) option =
+  match words obs with
+  | "EV" :: rest -> let toks, r = split_at "R" rest in Some (events_of_toks toks, (match r with v :: _ -> v | [] -> "?"))
+  | _ -> None
+
+let rec sort_cv (v : cvalue) : cvalue =
+  match v with
+  | CArr l -> CArr (List.map sort_cv l)
+  | CObj ms -> CObj (List.stable_sort (fun (a, _) (b, _) -> compare (hex_of_bytes a) (hex_of_bytes b)) (List.map (fun (k, x) -> (k, sort_cv x)) ms))
+  | _ -> v
+
+(* ---- fold cases ---- *)
+let fold_case (input : string) (obs0 : string) : verdict =
+  let obs, _ = split_flags_all obs0 in
+  match Str.split_delim (Str.regexp_string "|") input with
+  | [ h; tseg; vseg ] ->
+      let mode, failat, multi = match words h with [ m; f; mu ] -> (m, int_of_string f, mu = "1") | _ -> failwith "fold header" in
+      let t, v = typed_value tseg vseg in
+      let evs, err = fold_value t v in
+      let evs = if mode = "P" then List.concat_map expand evs else evs in
+      let s, ok = emit_all (sink0 (fail_opt failat)) evs in
+      let delivered = s_log s in
+      let verdict = if not ok then "inj" else match err with None -> "ok" | Some _ -> "err" in
+      let model = Printf.sprintf "EV %s R %s" (toks_of_events delivered) verdict in
+      let oracle = ref [] in
+      let model =
+        match obs_events obs with
+        | Some (ievs, iv) ->
+            (* direct oracles on what the implementation delivered *)
+            if failat < 0 && iv = "ok" then begin
+              match take_trees ievs 4 with
+              | Some [ tr ] -> if not (wf_tree tr) then oracle := ("C09", "Fold emitted an ill-formed event stream") :: !oracle
+              | _ -> oracle := ("C09", "Fold emitted an unbalanced event stream") :: !oracle
+            end;
+            (* C12 / C11: the documented mapping (Gotype/FoldSpec.v) *)
+            if failat < 0 && iv <> "PANIC" && iv <> "HANG" then begin
+              let fuel = nat_of_int 400 in
+              let want = if spec_supported fuel t then spec_fold fuel t v else None in
+              match want with
+              | None -> if iv = "ok" then oracle := ("C11", "a value of an unsupported type or shape was folded without an error") :: !oracle
+              | Some w ->
+                  if iv <> "ok" then oracle := ("C12", "a supported value was refused: " ^ iv) :: !oracle
+                  else begin
+                    match take_trees ievs 4 with
+                    | Some [ tr ] ->
+                        let got = cv (value_of tr) in
+                        let same = if multi then cvalue_eqb (sort_cv got) (sort_cv w) else cvalue_eqb got w in
+                        if not same then oracle := ("C12", "folded value differs from the documented mapping") :: !oracle
+                    | _ -> ()
+                  end
+            end;
+            if failat >= 0 && List.length ievs > failat then begin
+              if List.length ievs <> failat + 1 then oracle := ("C16", "Fold delivered events after the visitor failed") :: !oracle;
+              if iv <> "inj" then oracle := ("C16", "Fold did not return the visitor's error: " ^ iv) :: !oracle
+            end;
+            if iv = "PANIC" || iv = "HANG" then oracle := ("C11", "Fold crashed: " ^ iv) :: !oracle;
+            (* correspondence modulo map iteration order *)
+            if multi && iv = verdict &&
+               (if verdict = "ok" then sorted_toks ievs = sorted_toks delivered else true) then obs else model
+        | None -> oracle := ("C11", "Fold crashed: " ^ obs) :: !oracle; model in
+      { model; oracle = !oracle }
+  | _ -> failwith "fold: bad input"
+
 let fmts = [ cbor_fmt; ubj_fmt; json_fmt ]
 let () = all_fmts := fmts
 let fmt_handlers =
@@ -1048,7 +1176,7 @@ let fmt_handlers =
 let canon_obs (o : string) : string =
   if contains o "HANG" then "HANG" else if contains o "PANIC" then "PANIC" else o
 
-let handlers : (string * (string -> string -> verdict)) list = ("lru", lru_case) :: fmt_handlers
+let handlers : (string * (string -> string -> verdict)) list = ("lru", lru_case) :: ("fold", fold_case) :: fmt_handlers
 
 
 let () =
